@@ -83,6 +83,39 @@ fn handle(line: &str) -> String {
             let (s, e, c) = (bytes_of_hex(s), bytes_of_hex(e), bytes_of_hex(c));
             msg_result_str(&Message::try_from((s.as_slice(), e.as_slice(), c.as_slice())))
         }
+        ["issue", j, h, m, ry, ro] => {
+            let v = issue_val(j.parse().unwrap(), h.parse().unwrap(), m.parse().unwrap(),
+                              ry.parse().unwrap(), ro.parse().unwrap());
+            if v == -1 { "err".into() } else { format!("{}", v) }
+        }
+        ["issueblock", yi, h, m] => {
+            let yi: i32 = yi.parse().unwrap();
+            let (h, m): (u32, u32) = (h.parse().unwrap(), m.parse().unwrap());
+            let mut hh = FNV_INIT;
+            let ylen = if chrono::NaiveDate::from_yo_opt(yi, 366).is_some() { 366 } else { 365 };
+            for oi in 1..=ylen {
+                let d0 = chrono::NaiveDate::from_yo_opt(yi, oi).unwrap();
+                for off in -90i64..=90 {
+                    let d = d0 + chrono::Duration::days(off);
+                    use chrono::Datelike;
+                    let v = issue_val(oi, h, m, d.year(), d.ordinal());
+                    for k in 0..8 {
+                        hh = fnv_step(hh, ((v >> (8 * k)) & 0xff) as u32);
+                    }
+                }
+            }
+            format!("{:016x}", hh)
+        }
+        ["expired", j, h, m, dh, dm, ry, ro, sod, ns] => {
+            use chrono::TimeZone;
+            let hdr = issue_header(j.parse().unwrap(), h.parse().unwrap(), m.parse().unwrap(),
+                                   dh.parse().unwrap(), dm.parse().unwrap());
+            let d = chrono::NaiveDate::from_yo_opt(ry.parse().unwrap(), ro.parse().unwrap()).unwrap();
+            let sod: u32 = sod.parse().unwrap();
+            let now = chrono::Utc.from_utc_datetime(
+                &d.and_hms_nano_opt(sod / 3600, (sod / 60) % 60, sod % 60, ns.parse().unwrap()).unwrap());
+            if hdr.is_expired_at(&now) { "1".into() } else { "0".into() }
+        }
         ["utf8", s] => {
             if std::str::from_utf8(&bytes_of_hex(s)).is_ok() {
                 "1".into()
@@ -91,6 +124,26 @@ fn handle(line: &str) -> String {
             }
         }
         _ => verif_harness_ext(&toks),
+    }
+}
+
+fn issue_header(j: u32, h: u32, m: u32, dh: u32, dm: u32) -> MessageHeader {
+    MessageHeader::new(format!(
+        "ZCZC-WXR-RWT-012345+{:02}{:02}-{:03}{:02}{:02}-NOCALL  -",
+        dh, dm, j, h, m
+    ))
+    .expect("header")
+}
+
+/// issue_datetime through the public API; -1 = Err
+fn issue_val(j: u32, h: u32, m: u32, ry: i32, ro: u32) -> i64 {
+    use chrono::TimeZone;
+    let hdr = issue_header(j, h, m, 0, 0);
+    let d = chrono::NaiveDate::from_yo_opt(ry, ro).expect("receive date");
+    let rx = chrono::Utc.from_utc_datetime(&d.and_hms_opt(12, 0, 0).unwrap());
+    match hdr.issue_datetime(&rx) {
+        Ok(t) => t.timestamp(),
+        Err(_) => -1,
     }
 }
 
